@@ -317,3 +317,24 @@ _add(
          "step; with a sum reduction the batched trainer step equals the sum of the per-sample steps.",
     technique="runtime monitoring: relational (2-safety) monitor, batched run vs independent single-sample twins",
 )
+
+_add(
+    "C12",
+    rule="systems = Serial / Biclique / RecurrentSerial layer (8 neuron classes x 4 synapses x 4 connections, with and "
+         "without delays, in-place or not) + optional trainer (STDP, triplet, MSTDP, MSTDPET, kernel, delay-adjusted "
+         "weight and delay variants; real weight/delay updates every step) + optional stand-alone reducer (trace, event, "
+         "EMA, cumulative average, pass-through; duration 0 or 3 steps) + optional MaxRateClassifier, batch 1-2, run "
+         "length T in 8..14; for EVERY k in 0..T: run k steps, torch.save/torch.load the state dicts, load strictly into "
+         "a third instance that was warmed by one step (fresh) or three steps on unrelated data (prerun), continue to T "
+         "and compare every output and the complete final state (all state-dict entries incl. extras and non-persistent "
+         "buffers) exactly. One evaluation = one checkpoint position; distinct = (layer, trainer, reducer, classifier, "
+         "target kind, position class, delay, in-place).",
+    required=["checkpoint_positions_checked", "restored_steps_compared", "final_states_compared"],
+    floor={"quick": 20, "thorough": 120},
+    shards={"quick": 8, "thorough": 32},
+    exhaustive={"quick": ["every checkpoint position k in 0..T of each generated run"], "thorough": ["every checkpoint position k in 0..T of each generated run"]},
+    text="Held on every configuration and checkpoint position explored: state dictionaries really serialised with "
+         "torch.save/torch.load and loaded strictly into another instance (fresh or previously run) reproduce every later "
+         "output and the complete final state of the uninterrupted run bit-for-bit.",
+    technique="runtime monitoring: relational monitor, interrupted-and-restored run vs uninterrupted run at every checkpoint position",
+)
